@@ -223,4 +223,228 @@ Proof.
   unfold rent_env at 2. rewrite E. destruct (negb (forallb (sanity_pred D) D)); [reflexivity|]. apply sanity_loop_rent.
 Qed.
 
+(* ---------------------------------------------------------------- names, contexts, forms *)
+Notation rn := (rent_name rt rl).
+Notation ro := (option_map (rent_name rt rl)).
+Definition rentc (g : ctx) : ctx := map (fun kv => (fst kv, option_map T (snd kv))) g.
+Definition rent_sig (s : fsig) : fsig :=
+  {| fs_name := fs_name s; fs_params := map rn (fs_params s); fs_type := option_map T (fs_type s) |}.
+
+Lemma name_equal_rent a b : name_equal (rn a) (rn b) = name_equal a b.
+Proof. reflexivity. Qed.
+Lemma is_provider_rent n sh : is_provider (rn n) (ro sh) = is_provider n sh.
+Proof. destruct sh; reflexivity. Qed.
+
+Lemma alookup_rentc x g : alookup x (rentc g) = option_map (option_map T) (alookup x g).
+Proof. unfold rentc. induction g as [|[k v] g IH]; cbn; auto. destruct (String.eqb x k); auto. Qed.
+Lemma aremove_rentc x g : aremove x (rentc g) = rentc (aremove x g).
+Proof. unfold rentc. induction g as [|[k v] g IH]; cbn; auto. destruct (String.eqb x k); cbn; now rewrite IH. Qed.
+Lemma aset_rentc x v g : aset x (option_map T v) (rentc g) = rentc (aset x v g).
+Proof.
+  unfold aset. change (rentc ((x, v) :: aremove x g)) with ((x, option_map T v) :: rentc (aremove x g)).
+  now rewrite aremove_rentc.
+Qed.
+
+Lemma has_rent g n t : has g n t -> has (rentc g) (rn n) (T t).
+Proof. intros [S L]. split; auto. cbn. rewrite alookup_rentc, L. reflexivity. Qed.
+Lemma fresh_rent g n : fresh g n -> fresh (rentc g) (rn n).
+Proof. unfold fresh, ctx_has, amem. cbn. rewrite alookup_rentc. destruct (alookup (ident n) g); auto. Qed.
+Lemma ctx_has_rent g x : ctx_has (rentc g) x = ctx_has g x.
+Proof. unfold ctx_has, amem. rewrite alookup_rentc. destruct (alookup x g); auto. Qed.
+Lemma without_rent g n : without (rentc g) (rn n) = rentc (without g n).
+Proof. unfold without. cbn. apply aremove_rentc. Qed.
+Lemma bind_rent g n t : bind (rentc g) (rn n) (T t) = rentc (bind g n t).
+Proof. unfold bind. cbn. apply (aset_rentc (ident n) (Some t)). Qed.
+Lemma rentc_nil g : g = [] -> rentc g = [].
+Proof. now intros ->. Qed.
+Lemma as_provider_rent n t : as_provider (rn n) (T t) = ro (as_provider n t).
+Proof. reflexivity. Qed.
+Lemma pol_ok_rent n h : pol_ok n h -> pol_ok (rn n) (T h).
+Proof. unfold pol_ok. cbn. now rewrite polarity_of_rent. Qed.
+Lemma ctx_ge_rent g m : ctx_ge g m -> ctx_ge (rentc g) m.
+Proof.
+  intros G x t Hin. unfold rentc in Hin. apply in_map_iff in Hin. destruct Hin as [[k v] [E Hin]].
+  cbn in E. inversion E; subst. destruct v as [v|]; [|discriminate]. cbn in H1. inversion H1; subst.
+  rewrite mode_of_rent. eapply G; eauto.
+Qed.
+
+(* free names *)
+Lemma append_rent n l : append_if_not_self (rn n) (map rn l) = map rn (append_if_not_self n l).
+Proof. unfold append_if_not_self. cbn. destruct (is_self n); auto. now rewrite map_app. Qed.
+Lemma remove_bound_rent l b : remove_bound (map rn l) (rn b) = map rn (remove_bound l b).
+Proof.
+  unfold remove_bound. induction l as [|x l IH]; cbn [map filter]; auto.
+  rewrite name_equal_rent. destruct (name_equal x b); cbn; now rewrite IH.
+Qed.
+Lemma name_exists_rent l c : name_exists (map rn l) (rn c) = name_exists l c.
+Proof. unfold name_exists. induction l as [|x l IH]; cbn [map existsb]; auto. now rewrite name_equal_rent, IH. Qed.
+Lemma merge_rent : forall b a, merge_names (map rn a) (map rn b) = map rn (merge_names a b).
+Proof.
+  induction b as [|n b IH]; intros a; cbn [map merge_names]; auto.
+  rewrite name_exists_rent. destruct (name_exists a n); [apply IH|].
+  rewrite <- IH. now rewrite map_app.
+Qed.
+Lemma fold_append_rent : forall args acc,
+  fold_left (fun acc n => append_if_not_self n acc) (map rn args) (map rn acc) =
+  map rn (fold_left (fun acc n => append_if_not_self n acc) args acc).
+Proof. induction args as [|a args IH]; intros acc; cbn [map fold_left]; auto. rewrite append_rent. apply IH. Qed.
+
+Lemma free_names_rent_all :
+  (forall f, free_names (rent_form rt rl f) = map rn (free_names f)) /\
+  (forall b acc, free_names_brs (map rn acc) (rent_branches rt rl b) = map rn (free_names_brs acc b)).
+Proof.
+  apply form_branches_ind; intros; cbn [rent_form rent_branches free_names free_names_brs].
+  - change (@nil name) with (map rn []). now rewrite !append_rent.
+  - rewrite H, !remove_bound_rent. change (@nil name) with (map rn []) at 1. now rewrite append_rent, merge_rent.
+  - change (@nil name) with (map rn []). now rewrite !append_rent.
+  - change (@nil name) with (map rn []) at 1. rewrite append_rent. apply H.
+  - rewrite H, H0, remove_bound_rent. change (@nil name) with (map rn []) at 1. now rewrite !merge_rent.
+  - change (@nil name) with (map rn []). now rewrite !append_rent.
+  - rewrite H. change (@nil name) with (map rn []) at 1. now rewrite append_rent, merge_rent.
+  - change (@nil name) with (map rn []). now rewrite !append_rent.
+  - rewrite H, !remove_bound_rent. change (@nil name) with (map rn []) at 1. now rewrite append_rent, merge_rent.
+  - change (@nil name) with (map rn []) at 1. apply fold_append_rent.
+  - change (@nil name) with (map rn []). now rewrite !append_rent.
+  - rewrite H, remove_bound_rent. change (@nil name) with (map rn []) at 1. now rewrite append_rent, merge_rent.
+  - rewrite H. change (@nil name) with (map rn []) at 1. now rewrite append_rent, merge_rent.
+  - apply H.
+  - reflexivity.
+  - rewrite H, remove_bound_rent, merge_rent. apply H0.
+Qed.
+Lemma free_names_rent f : free_names (rent_form rt rl f) = map rn (free_names f).
+Proof. apply free_names_rent_all. Qed.
+Lemma name_in_names_rent x l : name_in_names (rn x) (map rn l) = name_in_names x l.
+Proof. unfold name_in_names. induction l as [|y l IH]; cbn [map existsb]; auto. now rewrite name_equal_rent, IH. Qed.
+Lemma has_continuation_rent f : has_continuation (rent_form rt rl f) = has_continuation f.
+Proof. destruct f; reflexivity. Qed.
+Lemma not_call_rent f : (forall fn args o, f <> FCall fn args o) -> forall fn args o, rent_form rt rl f <> FCall fn args o.
+Proof. intros N fn args o. destruct f; cbn; try discriminate. exfalso. eapply N; eauto. Qed.
+Lemma br_labels_rent b : br_labels (rent_branches rt rl b) = map rl (br_labels b).
+Proof. induction b; cbn; auto. now rewrite IHb. Qed.
+
+Lemma NoDup_rl l : NoDup l -> NoDup (map rl l).
+Proof.
+  induction 1 as [|x l Hx N IH]; cbn; constructor; auto.
+  intros Hin. apply in_map_iff in Hin. destruct Hin as [y [E Hy]]. apply rl_inj in E. now subst.
+Qed.
+
+(* ---------------------------------------------------------------- the judgement *)
+Section Judgement.
+Variable teq : tenv -> sty -> sty -> Prop.
+Hypothesis teq_rent : forall s t, teq D s t -> teq D' (T s) (T t).
+Variable Sg : sigma.
+Notation Sg' := (map rent_sig Sg).
+
+Lemma sig_lookup_rent fn : sig_lookup Sg' fn = option_map rent_sig (sig_lookup Sg fn).
+Proof.
+  induction Sg as [|s S IH]; cbn; auto. rewrite IH. destruct (sig_lookup S fn); cbn; auto.
+  destruct (String.eqb fn (fs_name s)); auto.
+Qed.
+
+Lemma split_ctx_rent g ns acc gl gr : split_ctx D g ns acc gl gr ->
+  split_ctx D' (rentc g) (map rn ns) (rentc acc) (rentc gl) (rentc gr).
+Proof.
+  induction 1 as [g acc|g n ns acc gl gr S SP IH|g n ns acc gl gr t h Ha Hh SP IH]; cbn [map].
+  - constructor.
+  - apply split_self; auto.
+  - eapply split_take; eauto using has_rent, head_rent. now rewrite without_rent, bind_rent.
+Qed.
+
+Lemma typed_args_rent g args params g' : TypedArgs teq D g args params g' ->
+  TypedArgs teq D' (rentc g) (map rn args) (map rn params) (rentc g').
+Proof.
+  induction 1 as [g|g a ar p pr g' ta tp ha Ha Np Te Hh Po TA IH]; cbn [map]; [constructor|].
+  eapply args_cons with (ta := T ta) (tp := T tp) (ha := T ha); eauto using has_rent, head_rent, pol_ok_rent.
+  - cbn. now rewrite Np.
+  - now rewrite without_rent.
+Qed.
+
+Lemma find_br_rent_some l bs a : find_br l bs = Some a -> find_br (rl l) (TB bs) = Some (T a).
+Proof. intros H. now rewrite find_br_rent, H. Qed.
+Lemma is_provider_rent_eq n sh b : is_provider n sh = b -> is_provider (rn n) (ro sh) = b.
+Proof. now rewrite is_provider_rent. Qed.
+Lemma name_equal_rent_eq a b c : name_equal a b = c -> name_equal (rn a) (rn b) = c.
+Proof. auto. Qed.
+Lemma check_wf_rent_true t : check_wf D t = true -> check_wf D' (T t) = true.
+Proof. now rewrite check_wf_rent. Qed.
+Lemma incl_labels_rent bs b : incl (brs_labels bs) (br_labels b) ->
+  incl (brs_labels (TB bs)) (br_labels (rent_branches rt rl b)).
+Proof. intros I. rewrite brs_labels_rent, br_labels_rent. now apply incl_map. Qed.
+Lemma nodup_labels_rent b : NoDup (br_labels b) -> NoDup (br_labels (rent_branches rt rl b)).
+Proof. intros N. rewrite br_labels_rent. now apply NoDup_rl. Qed.
+
+Hint Resolve has_rent fresh_rent is_provider_rent_eq name_equal_rent_eq pol_ok_rent rentc_nil ctx_ge_rent
+     head_rent teq_rent find_br_rent_some check_wf_rent_true incl_labels_rent nodup_labels_rent add_missing_rent : rent.
+
+(* lift the type-level premises of a rule (heads of connectives become syntactic again after cbn) *)
+Ltac lift := repeat match goal with
+  | H : head D _ _ |- _ => apply head_rent in H; cbn [rent_ty rent_brs] in H
+  | H : teq D _ _ |- _ => apply teq_rent in H; cbn [rent_ty rent_brs] in H
+  | H : pol_ok ?n _ |- _ => lazymatch n with rent_name _ _ _ => fail | _ => apply pol_ok_rent in H; cbn [rent_ty rent_brs] in H end
+  end.
+Ltac rw_rent := rewrite ?without_rent, ?bind_rent, ?as_provider_rent, ?mode_of_rent, ?polarity_of_rent.
+Ltac bindT := repeat match goal with
+  | |- context [bind ?g (rent_name rt rl ?n) (TUnit ?m)] => change (TUnit m) with (T (TUnit m))
+  end.
+
+Set Default Timeout 100.
+Theorem typed_rent_all :
+  (forall g sh A f, Typed teq D Sg g sh A f -> Typed teq D' Sg' (rentc g) (ro sh) (T A) (rent_form rt rl f)) /\
+  (forall g bs b, TypedBrsR teq D Sg g bs b -> TypedBrsR teq D' Sg' (rentc g) (TB bs) (rent_branches rt rl b)) /\
+  (forall g sh A bs b, TypedBrsL teq D Sg g sh A bs b ->
+     TypedBrsL teq D' Sg' (rentc g) (ro sh) (T A) (TB bs) (rent_branches rt rl b)).
+Proof.
+  apply Typed_mutind; intros; cbn [rent_form rent_branches]; lift.
+  - eapply T_TensorR; rw_rent; eauto with rent.
+  - eapply T_TensorL; rw_rent; eauto with rent.
+  - eapply T_LolliR; rw_rent; eauto with rent.
+  - eapply T_LolliL; rw_rent; eauto with rent.
+  - eapply T_PlusR; rw_rent; eauto with rent.
+  - eapply T_PlusL; rw_rent; eauto with rent.
+  - eapply T_WithR; rw_rent; eauto with rent.
+  - eapply T_WithL; rw_rent; eauto with rent.
+  - change (@nil (string * option sty)) with (rentc []). eapply T_OneR; eauto with rent.
+  - eapply T_OneL; rw_rent; eauto with rent.
+  - eapply T_DownR with (hc := T hc); rw_rent; eauto with rent.
+  - eapply T_DownL; rw_rent; eauto with rent.
+  - eapply T_UpR; rw_rent; eauto with rent.
+  - eapply T_UpL with (hA := T hA); rw_rent; eauto with rent.
+  - eapply T_Id with (hf := T hf) (hA := T hA); rw_rent; eauto with rent.
+  - eapply T_CutCall with (gl := rentc gl) (gr := rentc gr) (sg := rent_sig sg) (ft := T ft) (hft := T hft);
+      rw_rent; eauto with rent.
+    + cbn [ident rent_name set_nty]. rewrite ctx_has_rent.
+      change (FCall fn (map rn args) (option_map T o)) with (rent_form rt rl (FCall fn args o)).
+      rewrite free_names_rent, name_in_names_rent. assumption.
+    + change (@nil (string * option sty)) with (rentc []). now apply split_ctx_rent.
+    + rewrite sig_lookup_rent. match goal with E : sig_lookup Sg fn = Some _ |- _ => now rewrite E end.
+    + cbn. match goal with E : fs_type sg = Some _ |- _ => now rewrite E end.
+    + intros xt Nx. cbn in Nx. destruct (nty x) as [xt0|] eqn:N0; [|discriminate]. cbn in Nx. inversion Nx; subst xt.
+      match goal with AN : forall xt, Some xt0 = Some xt -> _ |- _ => destruct (AN _ eq_refl) as [xt1 [AM [Wx Te]]] end.
+      exists (T xt1). repeat split; eauto with rent.
+  - eapply T_CutAx with (gl := rentc gl) (gr := rentc gr) (xt := T xt) (xt1 := T xt1) (h := T h);
+      rw_rent; eauto with rent.
+    + now rewrite has_continuation_rent.
+    + now apply not_call_rent.
+    + cbn [ident rent_name set_nty]. rewrite ctx_has_rent, free_names_rent, name_in_names_rent. assumption.
+    + rewrite free_names_rent. change (@nil (string * option sty)) with (rentc []). now apply split_ctx_rent.
+    + cbn. match goal with E : nty x = Some _ |- _ => now rewrite E end.
+  - eapply T_Call with (sg := rent_sig sg) (ft := T ft); eauto with rent.
+    + rewrite sig_lookup_rent. match goal with E : sig_lookup Sg fn = Some _ |- _ => now rewrite E end.
+    + cbn. now rewrite !map_length.
+    + cbn. match goal with E : fs_type sg = Some _ |- _ => now rewrite E end.
+    + cbn. change (@nil (string * option sty)) with (rentc []). now apply typed_args_rent.
+  - cbn [map]. eapply T_CallSelf with (sg := rent_sig sg) (ft := T ft); eauto with rent.
+    + rewrite sig_lookup_rent. match goal with E : sig_lookup Sg fn = Some _ |- _ => now rewrite E end.
+    + cbn. now rewrite !map_length.
+    + cbn. match goal with E : fs_type sg = Some _ |- _ => now rewrite E end.
+    + cbn. change (@nil (string * option sty)) with (rentc []). now apply typed_args_rent.
+  - eapply T_Drop with (tc := T tc) (hc := T hc); rw_rent; eauto with rent.
+  - eapply T_Split with (tf := T tf) (hf := T hf); rw_rent; eauto with rent.
+  - eapply T_Print; eauto.
+  - constructor.
+  - eapply brsR_cons with (bt := T bt) (hbt := T hbt); rw_rent; eauto with rent.
+  - constructor.
+  - eapply brsL_cons with (bt := T bt) (hbt := T hbt); rw_rent; eauto with rent.
+Qed.
+End Judgement.
 End TypeRenaming.
